@@ -192,6 +192,57 @@ Theorem C12_current_without_creator : forall (path : cpath) (conv : option sclas
 Proof. exact created_class_no_task_l. Qed.
 Print Assumptions C12_current_without_creator.
 
+(* ---- thread_queue_mc (shared-priority scheduler): its own copy of creation / recycling / `current` ----
+   The thread objects of this scheduler are created and recycled by queue_holder_thread (one set of per-size
+   heaps per worker, shared by its bound / high / normal / low priority thread_queue_mc queues; read and written
+   at the FRONT of the std::list where thread_queue uses the back), `current` is resolved by
+   thread_queue_mc::create_thread, staged descriptions are converted by thread_queue_mc::add_new.  All of it is
+   regenerated from queue_holder_thread.hpp / thread_queue_mc.hpp (Gen.mc_create_chain, mc_recycle_chain,
+   mc_heap_take, mc_heap_put, mc_current_resolution) and the same three facts are proved for it. *)
+Theorem C12_mc_recycle_same_size : forall (p : params) (ops : list qop) o cls want,
+  In (EvRebound o cls want) (qlog (mc_q_run p ops)) ->
+  osize o = want /\ want = get_stack_size p cls.
+Proof. exact mc_recycle_same_size_l. Qed.
+Print Assumptions C12_mc_recycle_same_size.
+
+Theorem C12_mc_new_object_size : forall (p : params) (ops : list qop) o cls want,
+  In (EvNew o cls want) (qlog (mc_q_run p ops)) ->
+  osize o = want /\ want = get_stack_size p cls.
+Proof. exact mc_new_object_size_l. Qed.
+Print Assumptions C12_mc_new_object_size.
+
+Theorem C12_mc_current_inherits_creator_class : forall (path : cpath) (c : sclass) (conv : option sclass),
+  mc_created_class path (Some c) conv Current = c /\ mc_created_enum path (Some c) Current = Some c.
+Proof. exact mc_created_class_current_l. Qed.
+Print Assumptions C12_mc_current_inherits_creator_class.
+
+Theorem C12_mc_current_inherits_through_generations : forall (gens : list (cpath * option sclass * sreq)) (c : sclass),
+  (forall g, In g gens -> snd g = Current) -> mc_descend c gens = c.
+Proof. exact mc_descend_current_l. Qed.
+Print Assumptions C12_mc_current_inherits_through_generations.
+
+Theorem C12_mc_current_child_stack_size : forall (p : params) (ops : list qop) (path : cpath) (c : sclass)
+    (conv : option sclass) o want,
+  In (EvRebound o (mc_created_class path (Some c) conv Current) want) (qlog (mc_q_run p ops)) \/
+  In (EvNew o (mc_created_class path (Some c) conv Current) want) (qlog (mc_q_run p ops)) ->
+  osize o = get_stack_size p c.
+Proof. exact mc_current_child_object_size_l. Qed.
+Print Assumptions C12_mc_current_child_stack_size.
+
+Theorem C12_mc_explicit_class_kept : forall (path : cpath) (creator conv : option sclass) (c : sclass),
+  mc_created_class path creator conv (Explicit c) = c /\ mc_created_enum path creator (Explicit c) = Some c.
+Proof. exact mc_created_class_explicit_l. Qed.
+Print Assumptions C12_mc_explicit_class_kept.
+
+(* the heap theorems for ANY regenerated code whose two chains agree and whose heap targets are distinct, whichever
+   ends of the lists it uses (the instance above and C12_recycle_same_size are this lemma at mc_code / tq_code) *)
+Theorem C12_recycle_same_size_any_code : forall (k : qcode) (p : params) (ops : list qop) o cls want,
+  chains_ok_g k = true ->
+  In (EvRebound o cls want) (qlog (q_run_g k p ops)) ->
+  osize o = want /\ want = get_stack_size p cls.
+Proof. exact recycle_same_size_g. Qed.
+Print Assumptions C12_recycle_same_size_any_code.
+
 (* ---- non-vacuity ---- *)
 (* a concrete run of the routine: A (rsp = 0x10000, callee-saved 11..16) switches to a frame at
    0x30000 holding 101..108, start address 0x400123, argument 0x77 *)
@@ -237,4 +288,28 @@ Example C12_example_current :
   descend Huge [(Staged, None, Current); (RunNow, None, Current); (Staged, Some Small, Current)] = Huge /\
   resolve None (create_prologue_at CurRunNowOnly Staged (Some Huge) Current) = Small /\
   resolve (Some Huge) (create_prologue_at CurRunNowOnly RunNow (Some Huge) Current) = Huge.
+Proof. vm_compute. repeat split; reflexivity. Qed.
+
+(* the mc heaps are LIFO at the front, thread_queue's LIFO at the back: with small = medium the medium task reuses the
+   object recycled LAST (object 1), under both codes; a FIFO use of the list (take front, put back) would reuse object 0 —
+   all three satisfy the size theorem *)
+Example C12_example_mc_recycle :
+  let p := fun c => match c with Small => 32768 | Medium => 32768 | Large => 65536
+                               | Huge => 131072 | Nostack => max_ptrdiff end in
+  let ops := [Create Small; Create Small; Terminate 1; Terminate 0; Create Large; Create Medium] in
+  rev (qlog (mc_q_run p ops))
+  = [EvNew (mkObj 0 32768) Small 32768; EvNew (mkObj 1 32768) Small 32768;
+     EvRecycled (mkObj 0 32768) Small; EvRecycled (mkObj 1 32768) Small;
+     EvNew (mkObj 2 65536) Large 65536; EvRebound (mkObj 1 32768) Medium 32768] /\
+  qlog (q_run p ops) = qlog (mc_q_run p ops) /\
+  hd_error (qlog (q_run_g (mkCode mc_create_chain mc_recycle_chain HFront HBack) p ops)) = Some (EvRebound (mkObj 0 32768) Medium 32768) /\
+  mc_heap_take = HFront /\ mc_heap_put = HFront /\ tq_heap_take = HBack /\ tq_heap_put = HBack.
+Proof. vm_compute. repeat split; reflexivity. Qed.
+
+(* `current` under the shared-priority scheduler: a run_now request from another worker's queue is turned into a
+   staged one before thread_queue_mc::create_thread sees it; the class is the creator's either way *)
+Example C12_example_mc_current :
+  mc_descend Huge [(mc_effective_path false RunNow, None, Current); (mc_effective_path true RunNow, None, Current);
+                   (Staged, Some Small, Current)] = Huge /\
+  mc_effective_path false RunNow = Staged.
 Proof. vm_compute. repeat split; reflexivity. Qed.
